@@ -229,19 +229,19 @@ Ltac rr_core IHt :=
 
 Ltac rp_fin := first [ split; [reflexivity|seq_solve] | exact I | reflexivity ].
 
-Lemma rres_accs_loop ce ce' : forall accs,
+Lemma rres_accs_loop ce ce' fuel : forall accs,
   (forall st st' a, In a accs -> st_rel st st' -> match a with XAArray i => rres RP (ce st i) (ce' st' i) | _ => True end) ->
-  forall st st' t, st_rel st st' -> rres RP (accs_loop ce D st t accs) (accs_loop ce' D' st' t accs).
+  forall st st' t, st_rel st st' -> rres RP (accs_loop ce fuel D st t accs) (accs_loop ce' fuel D' st' t accs).
 Proof.
   induction accs as [|a accs IH]; intros H st st' t Hq; cbn [accs_loop]; [split; [reflexivity|exact Hq]|].
-  assert (IH' : forall st st' t, st_rel st st' -> rres RP (accs_loop ce D st t accs) (accs_loop ce' D' st' t accs))
+  assert (IH' : forall st st' t, st_rel st st' -> rres RP (accs_loop ce fuel D st t accs) (accs_loop ce' fuel D' st' t accs))
     by (intros; apply IH; [intros; apply H; [now right|assumption]|assumption]).
   pose proof (fun st st' => H st st' a (or_introl eq_refl)) as Ha. clear H IH.
   eapply rres_bind with (RA := fun r r' => fst r = fst r' /\ st_rel (snd r) (snd r')).
   - destruct a.
     + destruct (expect_array_type t); cbn [cbind rres]; auto.
       eapply rres_bind; [apply Ha; exact Hq|]. intros [i1 s1] [i1' s1'] [E1 S1]. cbn [fst snd] in *. subst i1'.
-      destruct (check_or_constrain_unsigned i1 Usize); cbn [cbind rres]; auto.
+      destruct (coc_unsigned_deep fuel i1 Usize); cbn [cbind rres]; auto.
     + destruct (expect_tuple_type t); cbn [cbind rres]; auto. destruct (nthN _ _); cbn [rres]; auto.
     + destruct (expect_struct_type t); cbn [cbind rres]; auto. rewrite Hs.
       destruct (assocL _ (d_structs D)); cbn [rres]; auto. destruct (assocL _ _); cbn [rres]; auto.
